@@ -94,6 +94,7 @@ class EvalContext(metaclass=NamespaceableMeta):
         self._eval_stack = []
         self._unsafe_involved = [] # one flag per evaluation in progress: did an unsafe node take part in it?
         self._unsafe_results = set() # paths of already evaluated values which unsafe nodes took part in computing
+        self._unsafe_results_id = set() # the same by node, a node can be reached under more than one path (yaml aliases)
 
         self.user_data = None
 
@@ -153,6 +154,8 @@ class EvalContext(metaclass=NamespaceableMeta):
                 raise errors.UnsafeError(f'Note: the current context requires all evaluated nodes to be safe - see chained exceptions for more information', cfgobj, str(prefix))
 
         if id(cfgobj) in self._eval_cache_id:
+            if id(cfgobj) in self._unsafe_results_id:
+                self._unsafe_results.add(str(prefix))
             self._use_evaluated(prefix, cfgobj)
             return self._eval_cache_id[id(cfgobj)]
 
@@ -175,6 +178,7 @@ class EvalContext(metaclass=NamespaceableMeta):
 
         if unsafe_involved:
             self._unsafe_results.add(str(prefix))
+            self._unsafe_results_id.add(id(cfgobj))
 
         if evaluated_parent is not None:
             evaluated_parent[prefix[-1]] = evaluated_cfgobj
@@ -198,6 +202,7 @@ class EvalContext(metaclass=NamespaceableMeta):
         self._eval_cache.clear()
         self._eval_cache_id.clear()
         self._unsafe_results.clear()
+        self._unsafe_results_id.clear()
         self.user_data = Bunch()
 
         try:
